@@ -271,7 +271,44 @@ void h_vecop(void) {
 void znx_automorphism_inplace_i64(uint64_t nn, int64_t p, int64_t* res);
 void rnx_automorphism_inplace_f64(uint64_t nn, int64_t p, double* res);
 
-#define SIGN UINT64_C(0x8000000000000000)
+#if DBL
+typedef double elt_t;
+static inline elt_t vf_elt(void) { return vf_f64(); }
+static inline uint64_t bits_of(elt_t x) {
+  union {
+    double d;
+    uint64_t u;
+  } c;
+  c.d = x;
+  return c.u;
+}
+#else
+typedef int64_t elt_t;
+static inline elt_t vf_elt(void) { return vf_i64(); }
+static inline uint64_t bits_of(elt_t x) { return (uint64_t)x; }
+#endif
+static inline elt_t elt_neg(elt_t x) {
+#if DBL
+  return -x; /* IEEE negate = sign-bit flip, also on NaN and zero */
+#else
+  return (elt_t)(0 - (uint64_t)x);
+#endif
+}
+static inline elt_t elt_sub(elt_t x, elt_t y) {
+#if DBL
+  return x - y;
+#else
+  return (elt_t)((uint64_t)x - (uint64_t)y);
+#endif
+}
+static elt_t* alloc_elts(uint64_t n) {
+  elt_t* p = (elt_t*)malloc(n * sizeof(elt_t));
+#ifdef __CPROVER__
+  __CPROVER_assume(p != 0);
+#endif
+  for (uint64_t i = 0; i < n; ++i) p[i] = vf_elt();
+  return p;
+}
 
 void h_kernel(void) {
   int64_t p = P;
@@ -287,83 +324,72 @@ void h_kernel(void) {
 #if KOP == 2
   VF_ASSUME(p & 1);
 #endif
-  uint64_t* in = vf_alloc_words(NN);
-#if DBL && KOP == 1
-  /* (X^p-1) on doubles subtracts: keep the operands finite so that the specification below (one
-   * IEEE subtraction per coefficient, same operands) is the definition of the result */
-  for (uint64_t j = 0; j < NN; ++j) {
-    double x;
-    memcpy(&x, &in[j], 8);
-    VF_ASSUME(x == x && x < 1e300 && x > -1e300);
-  }
+  /* typed buffers: the specification below applies the same element operations (negate, subtract)
+   * to the same symbols, so for doubles no IEEE circuit has to be compared with another one */
+  elt_t* in = alloc_elts(NN);
+#ifdef PROBE
+  /* rnx (X^p-1) with symbolic p: SAT cannot decide an IEEE subtraction behind symbolic indexing
+   * (probe: no answer in 600 s at N=2).  The map is a data-independent signed permutation followed
+   * by "- in[j]", so here the data is the injective probe in[j] = 2^j (every +-2^a - 2^j is exact and
+   * identifies a, the sign and j); all-data obligations for this kernel use concrete p (every residue). */
+  for (uint64_t j = 0; j < NN; ++j) in[j] = (elt_t)(UINT64_C(1) << j);
 #endif
-  uint64_t* in0 = vf_snapshot(in, NN);
-  uint64_t* out = vf_alloc_words(NN);
-  uint64_t* inp = vf_snapshot(in, NN); /* in-place operand */
+  elt_t in0[NN];
+  elt_t* out = alloc_elts(NN);
+  elt_t* inp = alloc_elts(NN); /* in-place operand */
+  for (uint64_t j = 0; j < NN; ++j) {
+    in0[j] = in[j];
+    inp[j] = in[j];
+  }
 
 #if !DBL
 #if KOP == 0
-  znx_rotate_i64(NN, p, (int64_t*)out, (int64_t*)in);
-  znx_rotate_inplace_i64(NN, p, (int64_t*)inp);
+  znx_rotate_i64(NN, p, out, in);
+  znx_rotate_inplace_i64(NN, p, inp);
 #elif KOP == 1
-  znx_mul_xp_minus_one(NN, p, (int64_t*)out, (int64_t*)in);
+  znx_mul_xp_minus_one(NN, p, out, in);
   /* no int64 in-place form exists */
 #else
-  znx_automorphism_i64(NN, p, (int64_t*)out, (int64_t*)in);
-  znx_automorphism_inplace_i64(NN, p, (int64_t*)inp);
+  znx_automorphism_i64(NN, p, out, in);
+  znx_automorphism_inplace_i64(NN, p, inp);
 #endif
 #else
 #if KOP == 0
-  rnx_rotate_f64(NN, p, (double*)out, (double*)in);
-  rnx_rotate_inplace_f64(NN, p, (double*)inp);
+  rnx_rotate_f64(NN, p, out, in);
+  rnx_rotate_inplace_f64(NN, p, inp);
 #elif KOP == 1
-  rnx_mul_xp_minus_one(NN, p, (double*)out, (double*)in);
-  rnx_mul_xp_minus_one_inplace(NN, p, (double*)inp);
+  rnx_mul_xp_minus_one(NN, p, out, in);
+  rnx_mul_xp_minus_one_inplace(NN, p, inp);
 #else
-  rnx_automorphism_f64(NN, p, (double*)out, (double*)in);
-  rnx_automorphism_inplace_f64(NN, p, (double*)inp);
+  rnx_automorphism_f64(NN, p, out, in);
+  rnx_automorphism_inplace_f64(NN, p, inp);
 #endif
 #endif
 
   /* specification: the signed permutation j -> (j+p) resp. j*p mod 2N */
-  uint64_t ex[NN];
+  elt_t ex[NN];
   for (uint64_t j = 0; j < NN; ++j) {
 #if KOP == 2
     uint64_t e = ((uint64_t)j * (uint64_t)p) & (2 * NN - 1);
 #else
     uint64_t e = ((uint64_t)j + (uint64_t)p) & (2 * NN - 1);
 #endif
-    uint64_t v = in0[j];
-    if (e >= NN) {
-      e -= NN;
-#if DBL
-      v ^= SIGN;
-#else
-      v = 0 - v;
-#endif
-    }
-    ex[e] = v;
+    if (e >= NN)
+      ex[e - NN] = elt_neg(in0[j]);
+    else
+      ex[e] = in0[j];
   }
   for (uint64_t j = 0; j < NN; ++j) {
 #if KOP == 1
-#if DBL
-    double x, y, d;
-    memcpy(&x, &ex[j], 8);
-    memcpy(&y, &in0[j], 8);
-    d = x - y;
-    uint64_t want;
-    memcpy(&want, &d, 8);
+    elt_t want = elt_sub(ex[j], in0[j]);
 #else
-    uint64_t want = ex[j] - in0[j];
+    elt_t want = ex[j];
 #endif
-#else
-    uint64_t want = ex[j];
-#endif
-    VF_ASSERT(out[j] == want, "out-of-place kernel = ring map");
+    VF_ASSERT(bits_of(out[j]) == bits_of(want), "out-of-place kernel = ring map");
 #if !(KOP == 1 && !DBL)
-    VF_ASSERT(inp[j] == want, "in-place kernel = ring map (= out-of-place result)");
+    VF_ASSERT(bits_of(inp[j]) == bits_of(want), "in-place kernel = ring map (= out-of-place result)");
 #endif
-    VF_ASSERT(in[j] == in0[j], "kernel input untouched");
+    VF_ASSERT(bits_of(in[j]) == bits_of(in0[j]), "kernel input untouched");
   }
   VF_REACH();
 }
